@@ -9,16 +9,21 @@
 (*    0..MaxSize(+1), band widths / variable counts in 0..MaxSmall; with Emit = TRUE    *)
 (*    each is printed as one case carrying `accept`.                                    *)
 EXTENDS Guards, TLC, Json
-CONSTANTS MaxSize, MaxSmall, Emit
+CONSTANTS MaxSize, MaxSmall, AgedMax, Emit
 VARIABLES cur
 vars == <<cur>>
 
-Rng(kind) == CASE kind = "n" -> 0..MaxSize
-               [] kind = "i" -> 0..(MaxSize + 1)
-               [] kind \in {"b", "v"} -> 0..MaxSmall
-               [] kind = "o" -> (-(MaxSmall + 1))..(MaxSmall + 1)
-RECURSIVE Tup(_)
-Tup(ps) == IF ps = <<>> THEN {<<>>} ELSE {<<x>> \o t : x \in Rng(Head(ps)), t \in Tup(Tail(ps))}
+\* tuple ranges for sizes up to mx and band widths / variable counts up to sm
+RngOf(kind, mx, sm) == CASE kind = "n" -> 0..mx
+                         [] kind = "i" -> 0..(mx + 1)
+                         [] kind \in {"b", "v"} -> 0..sm
+                         [] kind = "o" -> (-(sm + 1))..(sm + 1)
+RECURSIVE TupOf(_, _, _)
+TupOf(ps, mx, sm) == IF ps = <<>> THEN {<<>>} ELSE {<<x>> \o t : x \in RngOf(Head(ps), mx, sm), t \in TupOf(Tail(ps), mx, sm)}
+Tup(ps) == TupOf(ps, MaxSize, MaxSmall)
+\* aged receivers and operand variants are enumerated over the smaller range 0..AgedMax (old sizes reach AgedMax + 2)
+ASmall == IF MaxSmall < AgedMax THEN MaxSmall ELSE AgedMax
+TupA(ps) == TupOf(ps, AgedMax, ASmall)
 
 RowOK(row) ==
   LET T == Tup(row.ps) IN
@@ -34,16 +39,26 @@ TableOK == /\ Cardinality(GroupNames) = Len(Table)
            /\ \A k \in 1..Len(Table) : RowOK(Table[k]) \/ Print(<<"BAD-ROW", Table[k].g>>, FALSE)
            /\ Paired \subseteq GroupNames
            /\ \A g \in Paired : "own" \in FormNames(Row(g)) /\ "ref" \in FormNames(Row(g))
+           \* every preparation is used by some group and every pair of Appendix B has operand variants
+           /\ PrepKeys = UNION {{p.prep : p \in Preps(RecvTy(Table[k].g), [j \in 1..Len(Table[k].ps) |-> 2]) \cup Preps(RecvTy(Table[k].g), [j \in 1..Len(Table[k].ps) |-> 0])} : k \in 1..Len(Table)}
+           /\ \A g \in Paired : Variants(g, [j \in 1..Len(Row(g).ps) |-> 1]) # {}
            /\ PrintT(<<"TABLE", ToJson(EntryKeys)>>)
 ASSUME TableOK
 
-Init == \E k \in 1..Len(Table) : \E t \in Tup(Table[k].ps) :
-          cur = [op |-> Table[k].g, t |-> t, accept |-> Acc(Table[k].g, t)]
+Case(g, t, prep, old, rhs, sc, pat) == [op |-> g, t |-> t, accept |-> Acc(g, t), prep |-> prep, old |-> old, rhs |-> rhs, sc |-> sc, pat |-> pat]
+\* (i) fresh operands; (ii) the receiver aged by every preparation of its type; (iii) operand variants of the pairs
+InitFresh == \E k \in 1..Len(Table) : \E t \in Tup(Table[k].ps) : cur = Case(Table[k].g, t, "", <<>>, "other", 0, "plain")
+InitAged == \E k \in 1..Len(Table) : \E t \in TupA(Table[k].ps) : \E p \in Preps(RecvTy(Table[k].g), t) :
+               cur = Case(Table[k].g, t, p.prep, p.old, "other", 0, "plain")
+InitVar == \E k \in 1..Len(Table) : \E t \in {u \in TupA(Table[k].ps) : Acc(Table[k].g, u)} : \E v \in Variants(Table[k].g, t) :
+               cur = Case(Table[k].g, t, "", <<>>, v.rhs, v.sc, "mixed")
+Init == InitFresh \/ InitAged \/ InitVar
 Next == UNCHANGED cur
 Spec == Init /\ [][Next]_vars
 
 Consistent == /\ cur.op \in GroupNames /\ Len(cur.t) = Len(Row(cur.op).ps)
               /\ cur.accept = Acc(cur.op, cur.t)
               /\ (~Row(cur.op).guard) => cur.accept
+              /\ cur.prep \in PrepKeys \cup {""} /\ (cur.pat = "mixed" => cur.accept)
 EmitCase == Emit => PrintT(<<"CASE", ToJson(cur)>>)
 =============================================================================
